@@ -1464,7 +1464,7 @@ class Interp:
                 other, u_ = (b, a) if isinstance(a, Unknown) else (a, b)
                 if a is b:
                     r = True
-                elif other is None and not u_.neg and u_.sym.startswith(_NEVER_NONE):
+                elif other is None and not u_.neg and (u_.sym.startswith(_NEVER_NONE) or u_.kind is not None):
                     # the value of a constructor / conversion that never returns None (tuple(x), str(x), len(x), an f-string …)
                     r = False
                 else:
